@@ -733,7 +733,7 @@ func main() {
 			if tier == "thorough" {
 				return 12 * time.Minute
 			}
-			return 90 * time.Second
+			return 150 * time.Second
 		},
 		Extra: func(tier string, r *vx.Report) {
 			backoffGrid(tier, r)
